@@ -69,6 +69,9 @@ def coeff_node(rng, sites, form, values=(0.0, 8.0, 1.0, 3.0, 0.5)):
         v = rng.choice(values)
         return v, {s: v for s in sites}
     truth = {s: rng.choice(values) for s in sites}
+    if rng.random() < 0.25:
+        # impurity pattern: most sites carry exactly zero
+        truth = {s: (v if rng.random() < 0.3 else 0.0) for s, v in truth.items()}
     if form == "dict":
         return dict(truth), truth
     return (lambda s: truth[s]), truth
